@@ -342,8 +342,22 @@ class EpochRules:
                 good = desc and srt['seq'] > last_app
                 # the range sorted is the whole list as it is after the last append
                 whole = True
-                for a, names_ok in ((srt['args'][0] if srt['args'] else None, ('begin', 'rbegin', 'cbegin', 'crbegin')),
-                                    (srt['args'][1] if len(srt['args']) > 1 else None, ('end', 'rend', 'cend', 'crend'))):
+                def unwrap(a):
+                    # a copy of an iterator (an argument passed by value, a named local holding begin() / end())
+                    for _ in range(4):
+                        if isinstance(a, tuple) and a and a[0] == 'obj' and len(a) > 3 and len(a[3]) == 1 and 'iterator' in str(a[1]):
+                            a = a[3][0]
+                        elif isinstance(a, tuple) and a and a[0] == 'lv' and a[1][0] == 'var':
+                            d = [e for e in p.events if e['kind'] == 'decl' and e['name'] == a[1][2] and e['seq'] < srt['seq']]
+                            w = [e for e in p.events if e['kind'] == 'assign_local' and e['path'][2] == a[1][2]]
+                            if not d or w or d[-1].get('value') is None:
+                                break
+                            a = d[-1]['value']
+                        else:
+                            break
+                    return a
+                for a, names_ok in ((unwrap(srt['args'][0]) if srt['args'] else None, ('begin', 'rbegin', 'cbegin', 'crbegin')),
+                                    (unwrap(srt['args'][1]) if len(srt['args']) > 1 else None, ('end', 'rend', 'cend', 'crend'))):
                     src = [e for e in p.events if e['kind'] == 'call' and e.get('obj') == lst and e.get('result') is not None and
                            (a == e['result'] or show(a) == show(e['result']) or show(a) == show(('deref', e['result'])))]
                     if not src or src[-1].get('name') not in names_ok or src[-1]['seq'] < last_app:
@@ -589,7 +603,7 @@ class EpochRules:
                     if f.get('move_assign') and good:
                         src = S('&' + f['params'][0]['name'])
                         good = p.store.get(('field', S('this'), pf)) == S(show(('field', src, pf))) and is_const(p.store.get(('field', src, pf))) and \
-                            (not calls or calls[0]['seq'] < min([e['seq'] for e in p.events if e['kind'] == 'assign'] or [10 ** 9]))
+                            (not calls or calls[0]['seq'] < min([e['seq'] for e in p.events if e['kind'] == 'assign' and not (e['path'] == ('field', S('this'), pf) and is_const(e['value']))] or [10 ** 9]))
                     sink.emit('C04.GUARD', 'ok' if good else 'violated', '%s %s path leaves the epoch %s' % (sname(f['name']), 'owning' if own else 'empty', 'exactly once' if own else 'never'),
                               self.loc(f, p.ret_line), '')
         # the epoch a guard reports is the pin itself
@@ -702,12 +716,31 @@ class EpochRules:
                     v = e['value']
                     unl = [x for x in p.events if x['kind'] == 'assign' and x['path'][0] == 'field' and x['path'][2] == self.nextf and x['seq'] < e['seq'] and
                            x['value'] == S(show(('field', v, self.nextf)))]
+                    # pointer-to-pointer walk: `*link = node->next` where the node was read from `*link`
+                    unl2 = [x for x in p.events if x['kind'] == 'assign' and x['path'][0] == 'deref' and x['seq'] < e['seq'] and
+                            x['value'] == S(show(('field', v, self.nextf))) and v == S(show(x['path']))]
+                    if unl2 and not unl:
+                        sink.ok('C17.FREE', 'a node is unlinked (prev->next = node->next) before it is deleted', self.loc(f, e['line']),
+                                'deletes %s after the cell that referred to it received its successor' % norm(v))
+                        headp = ('addr', ('field', S('this'), self.head))
+                        L = unl2[-1]['path'][1]
+                        ne = [o for c, o, _ in p.conds if isinstance(c, tuple) and c[0] == 'op' and c[1] == '!=' and {c[2], c[3]} == {L, headp}]
+                        sink.emit('C17.FREE', 'ok' if (ne and ne[-1]) else 'violated', 'the deleted node is not the one it was unlinked from (the head is never deleted)', self.loc(f, e['line']),
+                                  'the rewritten cell is not the head pointer')
+                        later = [x for x in p.events[e['seq'] + 1:] if (x['kind'] in ('read', 'assign') and x['path'][0] == 'field' and x['path'][1] == v) or
+                                 (x['kind'] == 'call' and isinstance(x.get('obj'), tuple) and x['obj'] == ('deref', v))]
+                        sink.emit('C20.UAF', 'ok' if not later else 'violated', 'no access to a node after it was deleted', self.loc(f, e['line']),
+                                  '' if not later else 'access at line %s' % later[0].get('line'))
+                        continue
                     good = bool(unl) and unl[-1]['path'][1] != v
                     sink.emit('C17.FREE', 'ok' if good else 'violated', 'a node is unlinked (prev->next = node->next) before it is deleted', self.loc(f, e['line']),
                               'deletes %s' % norm(v))
                     # never the head, never the predecessor itself
                     ne = [o for c, o, _ in p.conds if isinstance(c, tuple) and c[0] == 'op' and c[1] == '!=' and v in (c[2], c[3]) and unl and unl[-1]['path'][1] in (c[2], c[3])]
-                    sink.emit('C17.FREE', 'ok' if (ne and ne[-1]) else 'violated', 'the deleted node is not the one it was unlinked from (the head is never deleted)', self.loc(f, e['line']), '')
+                    # a node reached as `pred->next` is a successor: it is neither the head nor its own predecessor
+                    succ = bool(unl) and v == S(show(('field', unl[-1]['path'][1], self.nextf)))
+                    sink.emit('C17.FREE', 'ok' if ((ne and ne[-1]) or succ) else 'violated', 'the deleted node is not the one it was unlinked from (the head is never deleted)', self.loc(f, e['line']),
+                              'the successor of the node it is unlinked from' if succ else '')
                     later = [x for x in p.events[e['seq'] + 1:] if (x['kind'] in ('read', 'assign') and x['path'][0] == 'field' and x['path'][1] == v) or
                              (x['kind'] == 'call' and isinstance(x.get('obj'), tuple) and x['obj'] == ('deref', v))]
                     sink.emit('C20.UAF', 'ok' if not later else 'violated', 'no access to a node after it was deleted', self.loc(f, e['line']),
@@ -737,7 +770,7 @@ class EpochRules:
         # RemoveOutDatedLists does not modify the list it reads
         for p in self.paths(rm):
             for e in p.events:
-                if e['kind'] == 'call' and (e.get('record') or '').startswith('std::vector<') and not e.get('const_method') and e.get('name') not in ('cbegin', 'cend', 'begin', 'end'):
+                if e['kind'] == 'call' and (e.get('record') or '').startswith('std::vector<') and not e.get('const_method') and e.get('name') not in ('cbegin', 'cend', 'begin', 'end', 'back', 'front', 'at', 'operator[]', 'data', 'rbegin', 'rend', 'crbegin', 'crend'):
                     sink.bad('C17.CONST', 'RemoveOutDatedLists %s' % e['name'], self.loc(rm, e['line']), '')
 
     def walk_invariant(self, rm):
@@ -748,12 +781,47 @@ class EpochRules:
         # the two cursors: locals initialised from the head
         cursors = None
         for p in self.paths(rm):
-            names = [e['name'] for e in p.events if e['kind'] == 'decl' and e['type'].get('ct', '').endswith('ProtectedNode *')]
+            names = []
+            for e in p.events:
+                if e['kind'] == 'decl' and e['type'].get('ct', '').endswith('ProtectedNode *') and e['name'] not in names:
+                    names.append(e['name'])
             if len(names) >= 2:
                 cursors = names[:2]
                 break
         if not cursors:
-            sink.unsup('C20.WALKINV', 'RemoveOutDatedLists', self.loc(rm), 'cursor variables not recognised')
+            # a pointer-to-pointer walk has one cursor, the cell that refers to the visited node: trailing and walking position
+            # cannot drift apart; the cell is only ever the head pointer or the `next` member of the node it referred to
+            link = None
+            for p in self.paths(rm):
+                nm = [e['name'] for e in p.events if e['kind'] == 'decl' and e['type'].get('ct', '').endswith('ProtectedNode **')]
+                if nm:
+                    link = nm[0]
+                    break
+            if link is None:
+                sink.unsup('C20.WALKINV', 'RemoveOutDatedLists', self.loc(rm), 'cursor variables not recognised')
+                return
+            headp = ('addr', ('field', S('this'), self.head))
+            n = 0
+            for p in self.paths(rm):
+                cur = None
+                for e in p.events:
+                    if e['kind'] == 'decl' and e['name'] == link:
+                        cur = e.get('value')
+                        n += 1
+                        sink.emit('C20.WALKINV', 'ok' if cur == headp else 'violated', 'the link cursor starts at the head pointer', self.loc(rm, e.get('line')), show(cur))
+                    elif e['kind'] == 'loop_head' and link in dict(e.get('locals') or ()):
+                        cur = dict(e['locals'])[link]
+                    elif e['kind'] == 'assign_local' and e['path'][2] == link:
+                        v = e['value']
+                        n += 1
+                        good = v == headp or (isinstance(v, tuple) and v[0] == 'addr' and v[1][0] == 'field' and v[1][2] == self.nextf and cur is not None and
+                                              v[1][1] == S(show(cur[1] if isinstance(cur, tuple) and cur[0] == 'addr' else ('deref', cur))))
+                        sink.emit('C20.WALKINV', 'ok' if good else 'violated', 'the link cursor advances to the `next` member of the node it refers to', self.loc(rm, e.get('line')),
+                                  '%s = %s' % (link, show(v)))
+                        cur = v
+            if not n:
+                sink.unsup('C20.WALKINV', 'RemoveOutDatedLists', self.loc(rm), 'no update of the link cursor found')
+            self.keep_rule(rm, [link])
             return
         # which one walks: the one whose ->next is tested by the loop condition
         checked = 0
@@ -802,6 +870,58 @@ class EpochRules:
                           'after an iteration %s = %s and %s = %s are not adjacent: a later unlink splices out nodes that are never freed' % (cursors[0], norm(a), cursors[1], norm(b)))
         if not checked:
             sink.unsup('C20.WALKINV', 'RemoveOutDatedLists', self.loc(rm), 'no general iteration of the walk found')
+        self.keep_rule(rm, cursors)
+
+    def rv_of(self, p, path):
+        st = getattr(p, 'store', None) or {}
+        return st.get(path)
+
+    def keep_rule(self, rm, cursors):
+        """C20.KEEP: a node survives an iteration of the retirement walk only on an *equality* test of its range bits (with the
+        range bits of a protected epoch, or the initial range).  A node kept because its range merely compares above / below
+        something stays although no protected epoch lies in its range: the chain grows with the number of epochs."""
+        sink = self.sink
+        bad = None
+        kept = 0
+        for p in self.paths(rm):
+            evs = p.events
+            first_header = next((e['header'] for e in evs if e['kind'] == 'loop_head'), None)
+            heads = [i for i, e in enumerate(evs) if e['kind'] == 'loop_head' and e['header'] == first_header]
+            for hi, i in enumerate(heads):
+                j = heads[hi + 1] if hi + 1 < len(heads) else len(evs)
+                if j == len(evs):
+                    continue
+                seg = evs[i + 1:j]
+                if any(e['kind'] == 'delete' for e in seg):
+                    continue
+                loc = dict(evs[i].get('locals') or ())
+                nodes = [show(loc[c]) for c in cursors if loc.get(c) is not None]
+                if not nodes:
+                    continue
+                adv = [e for e in seg if e['kind'] == 'assign_local' and e['path'][2] in cursors]
+                if not adv:
+                    continue
+                eq = order = None
+                for e in seg:
+                    if e['kind'] != 'cond' or not isinstance(e['value'], tuple) or e['value'][0] != 'op':
+                        continue
+                    o = e['value'][1]
+                    txt = show(e['value'])
+                    if not any(n in txt for n in nodes) or '->' + self.nextf in txt and 'GetUpperBits' not in txt and '&' not in txt:
+                        continue
+                    if (o == '==' and e['outcome']) or (o == '!=' and not e['outcome']):
+                        eq = e
+                    elif o in ('<', '<=', '>', '>='):
+                        order = e
+                kept += 1
+                if eq is None and order is not None and bad is None:
+                    bad = order
+        if bad is not None:
+            sink.bad('C20.KEEP', 'a node survives the retirement walk only when a protected epoch lies in its range (equality of range bits)', self.loc(rm, bad.get('line')),
+                     'an iteration keeps the node on the order comparison %s alone: nodes whose range contains no protected epoch stay linked, '
+                     'the chain grows with the number of epochs' % show(bad['value']))
+        elif kept:
+            sink.ok('C20.KEEP', 'a node survives the retirement walk only when a protected epoch lies in its range (equality of range bits)', self.loc(rm), '%d keeping iterations' % kept)
 
     def c20(self):
         sink = self.sink
